@@ -2255,7 +2255,7 @@ static ssize_t bufr_memread_fn( void* cd, size_t len, char* buf )
 		{
 		len = mem->max_len - mem->pos;
 		}
-	memcpy( buf, mem->mem + mem->pos, len );
+	if( len > 0 ) memcpy( buf, mem->mem + mem->pos, len );
 	mem->pos += len;
 	return len;
 	}
@@ -2267,7 +2267,7 @@ static ssize_t bufr_memwrite_fn( void* cd, size_t len, const char* buf )
 		{
 		len = mem->max_len - mem->pos;
 		}
-	memcpy( mem->mem + mem->pos, buf, len );
+	if( len > 0 ) memcpy( mem->mem + mem->pos, buf, len );
 	mem->pos += len;
 	return len;
 	}
